@@ -265,16 +265,20 @@ class Evaluator:
             return False
         if v[0] == "enum":
             return all(self.known(x) for x in v[3])
-        if v[0] == "tuple":
+        if v[0] in ("tuple", "vec"):
             return all(self.known(x) for x in v[1])
+        if v[0] == "box":
+            return self.known(v[1])
         return v[0] in ("bool", "int", "str")
 
     def strip(self, v):
         v = self.deref_all(v)
         if v[0] == "enum":
             return ("enum", v[1], v[2], tuple(self.strip(x) for x in v[3]))
-        if v[0] == "tuple":
-            return ("tuple", tuple(self.strip(x) for x in v[1]))
+        if v[0] in ("tuple", "vec"):
+            return (v[0], tuple(self.strip(x) for x in v[1]))
+        if v[0] == "box":
+            return ("box", self.strip(v[1]))
         return v
 
     # ---- driver -------------------------------------------------------------------------------------------
